@@ -162,10 +162,13 @@ Definition skel_sum_dim (s : list Z) (dims : option (list Z)) (keepdim : bool) :
        | None => [("ReduceSum", [kd keepdim; [0]])]
        | Some ds => [("ReduceSum", [kd keepdim; [0]; ds])]
        end.
-(* aten_amax / aten_amin (trace_only): ReduceMax(self, keepdims) when dim is None, else ReduceMax(self, dim, keepdims);
-   `dim` arrives as a tensor, so it is no constant operand of the skeleton *)
+(* aten_amax / aten_amin.  As a script function (the code as it is) the trace holds one call node of the function, whose
+   body is ReduceMax(self, dim, keepdims); as a trace_only function (traced = true) it is ReduceMax(self, keepdims) when
+   dim is None, else ReduceMax(self, dim, keepdims).  `dim` arrives as a tensor, so it is no constant operand. *)
 Definition aten_amax (s : list Z) (dims : option (list Z)) (keepdim : bool) : option (list Z) := reduce_shape s dims keepdim.
-Definition skel_amax (keepdim : bool) : skel := [("ReduceMax", [kd keepdim; [0]])].
+Definition skel_amax (traced : bool) (keepdim : bool) : skel :=
+  if traced then [("ReduceMax", [kd keepdim; [0]])]
+  else [("pkg.onnxscript.torch_lib::aten_amax", [kd keepdim])].
 Definition aten_mean_dim (s dims : list Z) (keepdim : bool) : option (list Z) :=
   if zlen s =? 0 then Some s else reduce_shape s (Some dims) keepdim.
 Definition skel_mean_dim (s : list Z) (keepdim : bool) : skel :=
